@@ -362,7 +362,8 @@ func (w *world) buildIntrospection(over config.MechanismConfig) error {
 // --- generic authenticator with session_lifespan ----------------------------
 
 func (w *world) buildGeneric(over config.MechanismConfig) error {
-	sl := map[string]any{"active": "active", "not_after": "exp"}
+	// the session was issued an hour before it is first seen (issued_at), it ends R seconds after T0 (not_after)
+	sl := map[string]any{"active": "active", "not_after": "exp", "issued_at": "iat"}
 	if w.cell.VLeeway != nil {
 		sl["validity_leeway"] = durStr(*w.cell.VLeeway)
 	}
@@ -388,7 +389,7 @@ func (w *world) buildGeneric(over config.MechanismConfig) error {
 	}
 
 	w.tr.Handlers[hostIDP] = func(r *env.Recorded) (*http.Response, error) {
-		body := map[string]any{"active": true, "sub": "alice"}
+		body := map[string]any{"active": true, "sub": "alice", "iat": env.T0.Add(-time.Hour).Unix()}
 		if e := w.absExpiry(); e != nil {
 			body["exp"] = e.Unix()
 		}
